@@ -10,7 +10,61 @@ use crate::runner::{Ctx, SimpleProp, Tier};
 use crate::scenario::{Scenario, Violation};
 use std::rc::Rc;
 
+/// Windows of 32 KiB - 256 KiB that wrap at least once (match-heavy streams
+/// described by a few numbers and rebuilt at execution, see C01's large arm):
+/// what the decoder holds *while it hands a full window over* shows only here.
+fn gen_wide(t: &mut Tape) -> Scenario {
+    let mut sc = Scenario::new("c10");
+    sc.set_i("wide", 1);
+    let props = crate::gen::draw_props(t, false);
+    sc.set_l("props", vec![props.lc as u64, props.lp as u64, props.pb as u64]);
+    let dict = [32_768u64, 65_536, 49_152, 100_000, 262_144, 65_537][t.below(6) as usize];
+    sc.set_i("dict", dict);
+    let total = dict + dict * t.below(150) / 100 + t.below(300);
+    sc.set_i("total", total);
+    sc.set_i("prefix", t.range(1, 300));
+    sc.set_i("rng", t.u64());
+    sc.set_i("marker", t.below(2));
+    let stream = t.below(3) == 0;
+    sc.set_i("ep", if stream { EP_STREAM } else { EP_LZMA });
+    let need = dict.min(total);
+    let m = match t.below(6) {
+        0 => need.saturating_sub(1),
+        1 | 2 => need,
+        3 => need + 1,
+        4 => dict * 2,
+        _ => u64::MAX,
+    };
+    let mut opts = OptSpec::default();
+    opts.memlimit = Some(m.min(usize::MAX as u64) as usize);
+    opts.store(&mut sc);
+    RawSpec::default().store(&mut sc);
+    if stream {
+        let ops = vec![OP_WRITE, t.range(1, 5000), OP_WRITE_N, t.range(1, 100_000), OP_FLUSH, 0, OP_WRITE_ALL, 0, OP_FINISH, 0];
+        sc.set_l("ops", ops);
+    }
+    sc.set_i("need", need);
+    sc.set_i("lclp", (props.lc + props.lp) as u64);
+    sc.note = format!("wide window: lc={} lp={} pb={} dict={} produced={} need={} memlimit={}", props.lc, props.lp, props.pb, dict, total, need, m);
+    sc
+}
+
+/// Put the rebuilt stream of a wide scenario where `run` expects it.
+fn materialize(sc: &Scenario) -> Scenario {
+    let (props, payload, expect, _) = build_large_stream(sc);
+    let marker = sc.i("marker") == 1;
+    let mut f = crate::refmodel::container::lzma_header(props, sc.i("dict") as u32, Some(if marker { u64::MAX } else { expect.len() as u64 }));
+    f.extend_from_slice(&payload);
+    let mut s2 = sc.clone();
+    s2.set_b("input", f);
+    s2.set_b("expect", expect);
+    s2
+}
+
 fn gen(t: &mut Tape, _tier: Tier) -> Scenario {
+    if t.below(400) == 0 {
+        return gen_wide(t);
+    }
     let mut sc = Scenario::new("c10");
     let which = t.below(4); // 0,1 one-shot; 2 stream; 3 raw
     let mut opts = OptSpec::default();
@@ -149,7 +203,15 @@ fn run(sc: &Scenario, opts: &OptSpec, measure: bool) -> (Verdict, Vec<u8>, Optio
     (v, s.accepted.clone(), s.first_bad, peak, events)
 }
 
-fn exec(sc: &Scenario, ctx: &mut Ctx) -> Vec<Violation> {
+fn exec(sc0: &Scenario, ctx: &mut Ctx) -> Vec<Violation> {
+    let wide;
+    let sc = if sc0.i("wide") == 1 {
+        ctx.stats.hit("arm.wide_window_that_wraps");
+        wide = materialize(sc0);
+        &wide
+    } else {
+        sc0
+    };
     let opts = OptSpec::load(sc);
     let ep = sc.i("ep");
     let need = sc.i("need");
@@ -178,11 +240,11 @@ fn exec(sc: &Scenario, ctx: &mut Ctx) -> Vec<Violation> {
         EP_RAW_LZMA => ctx.stats.hit("arm.raw_decoder"),
         _ => ctx.stats.hit("arm.one_shot"),
     }
-    ctx.stats.eval(sc.hash(), need > 0, events + 2);
-    let mk = |class: &str, detail: String| vec![Violation::new(class, ep_name(ep), format!("{} [{}]", detail, sc.note), sc)];
+    ctx.stats.eval(sc0.hash(), need > 0, events + 2);
+    let mk = |class: &str, detail: String| vec![Violation::new(class, ep_name(ep), format!("{} [{}]", detail, sc.note), sc0)];
     for v in [&v0, &v1] {
         if let Verdict::Panic(p) = v {
-            return vec![Violation::new("panic", &panic_locus(p), p.clone(), sc)];
+            return vec![Violation::new("panic", &panic_locus(p), p.clone(), sc0)];
         }
     }
     let lying_size = sc.i("lying_size") == 1;
@@ -222,7 +284,12 @@ fn exec(sc: &Scenario, ctx: &mut Ctx) -> Vec<Violation> {
     }
     // heap: literal table + fixed decoder state + window (Vec growth factor 2) + slack
     let table = 2usize * (0x300usize << sc.i("lclp"));
-    let window = 2 * (m.min(need).max(8) as usize);
+    // the window Vec grows one byte at a time: its capacity is the next power of two
+    // (when the header announces more than the payload holds, the decoder goes on to
+    // decode the coder's flush bytes as a few more symbols before it runs dry: the
+    // production then exceeds the model's by up to a few matches)
+    let produced_upto = if lying_size { need + 8 * 273 } else { need };
+    let window = (m.min(produced_upto).max(8) as usize).next_power_of_two();
     let slack = 16 * 1024;
     ctx.stats.max(
         "max_heap_excess_over_table_and_window_bytes",
@@ -233,7 +300,7 @@ fn exec(sc: &Scenario, ctx: &mut Ctx) -> Vec<Violation> {
     if peak > bound {
         return mk(
             "buffers_more_than_limit",
-            format!("heap peak {} bytes exceeds table {} + 2*window {} + slack {}", peak, table, window, slack),
+            format!("heap peak {} bytes exceeds table {} + window capacity {} + slack {}", peak, table, window, slack),
         );
     }
     Vec::new()
@@ -242,12 +309,12 @@ fn exec(sc: &Scenario, ctx: &mut Ctx) -> Vec<Violation> {
 pub static C10: SimpleProp = SimpleProp {
     id: "C10",
     level: "exploration",
-    rule: "one evaluation = one pair (unlimited run, run with memlimit m) of a valid reference-encoded stream, m in {0, need-1, need, need+1, dict-1, dict, max, random, and values >= 2^32 whose low 32 bits are small} with need = min(dictionary, bytes produced), through lzma_decompress_with_options or Stream under a random history (each under all three header options), or the raw decoder (dictionary 1..5000; a third of these on a decoder object constructed for another size and re-targeted with reset); m >= need: identical verdict and bytes; m < need: Err and delivered bytes are a model prefix; heap peak of the limited run (metering allocator) <= literal table + 2*max(min(m,need),8) + 16 KiB (only allocations made while library code runs are metered); a fifth of the header-carrying streams are re-headed to announce a 256 MiB-4 GiB dictionary (and, for size-bounded ones, a 1 GiB size); non-trivial = need > 0; distinct by scenario hash",
+    rule: "one evaluation = one pair (unlimited run, run with memlimit m) of a valid reference-encoded stream, m in {0, need-1, need, need+1, dict-1, dict, max, random, and values >= 2^32 whose low 32 bits are small} with need = min(dictionary, bytes produced), through lzma_decompress_with_options or Stream under a random history (each under all three header options), or the raw decoder (dictionary 1..5000; a third of these on a decoder object constructed for another size and re-targeted with reset); m >= need: identical verdict and bytes; m < need: Err and delivered bytes are a model prefix; heap peak of the limited run (metering allocator) <= literal table + next_power_of_two(max(min(m,need),8)) + 16 KiB; 1 run in 400 uses a window of 32-256 KiB that wraps at least once, where what is held while a full window is handed over becomes visible (only allocations made while library code runs are metered); a fifth of the header-carrying streams are re-headed to announce a 256 MiB-4 GiB dictionary (and, for size-bounded ones, a 1 GiB size); non-trivial = need > 0; distinct by scenario hash",
     runs_quick: 150_000,
     runs_thorough: 24_000_000,
     both_profiles: false,
     assumptions: &[
-        "factor 2 on the window accounts for Vec growth; 16 KiB slack (worst clean excess observed: about 4 KiB, see maxima) covers the boxed decoder state; the driver's own records are not metered",
+        "the window Vec grows bytewise, so its capacity is the next power of two of its length; 16 KiB slack (worst clean excess observed: about 4 KiB, see maxima) covers the boxed decoder state; the driver's own records are not metered",
         "valid streams only: for corrupted input 'bytes produced' is not observable from outside",
     ],
     gen,
